@@ -1,8 +1,8 @@
 package rules
 
 import (
-	"go/types"
 	"go/token"
+	"go/types"
 	"strings"
 
 	"golang.org/x/tools/go/ssa"
@@ -19,6 +19,7 @@ func init() {
 			"every graph node (both constructors) and every handler node gets the graph's shared output map before it can execute; both process executors append the map to the child's environment (C11.output-visibility)",
 			"the writer installed as stderr does not include the capture pipe (C11.capture-is-stdout-only) — violated today, known finding F24",
 			"the capture pipe (read end = the field receiving os.Pipe()#0) is drained by a goroutine started before cmd.Run(), reading the pipe itself to EOF without closing it, into a buffer that is fresh for each execution and read only after the drain signalled completion (C11.pipe-drained)",
+			"the NAME=value entries the parameter parser returns are appended to DAG.Env whole, unconditionally and last, so a named parameter overrides an `env:` entry of the same name in Step.Variables (C11.params-override-env)",
 			"the recorded parameter string quotes each element it joins with the parser's delimiter (C11.recorder-quotes) — violated today, known finding F22",
 		},
 		NotDec: []string{"the parameter regular expression's grammar, byte-exactness of values, shell quoting", "the process environment as the third channel (os.Setenv ordering across steps)"},
@@ -31,6 +32,7 @@ func runC11(e *Env) {
 	c11OutputVisibility(e)
 	c11Capture(e)
 	c11Recorder(e)
+	c11ParamsOverrideEnv(e)
 }
 
 func c11ParamFlow(e *Env) {
